@@ -422,7 +422,8 @@ _ADDED4["C11"] += " Members moved into a second object under another spelling (l
 _ADDED4["C18"] += " NULL values also under a value destructor (the destructor is called with NULL; LinkedHash.tla / Cache.tla Destroys5)."
 _ADDED4["C15"] = " acquire_up_to with a minimum beyond everything (2^32, 2^63, SIZE_MAX)."
 _ADDED4["C16"] += " The checked forms expanded inside a loop over 2-8 operand pairs (ArithLoop)."
-_ADDED4["C17"] += " Dumps by worker threads while others allocate and release (a logger that yields between two lines)."
+_ADDED4["C17"] += (" Dumps by worker threads while others allocate and release (a logger that yields between two lines); tracer "
+                   "generations (destroy / re-create with immediate address reuse).")
 _ADDED4["C19"] += " Parsing through both entry points (cursor; byte buffer with spare capacity behind the text)."
 _ADDED4["C20"] += (" One handle launched and joined several times in a row; at-exit callbacks that take seconds under a bounded join-all "
                    "(a call that gives up is back by about its deadline).")
